@@ -1092,3 +1092,8 @@ mutant("M14x-reported-source-is-copy-grid", ["C14"], "RECHUNK-CHAIN-1", (RECH, "
 mutant("M14y-dict-request-filled-in-place", ["C14"], "RECHUNK-CHAIN-1", (OPS, "        chunks = {validate_axis(c, x.ndim): v for c, v in chunks.items()}\n        for i in range(x.ndim):", "        for i in range(x.ndim):"))
 benign("B14y-dict-request-copied-first", ["C14"], (OPS, "        chunks = {validate_axis(c, x.ndim): v for c, v in chunks.items()}\n        for i in range(x.ndim):", "        chunks = dict(chunks)\n        chunks = {validate_axis(c, x.ndim): v for c, v in chunks.items()}\n        for i in range(x.ndim):"))
 benign("B14w-array-method-forwards-by-kwargs-dict", ["C14"], (ARRAY, "        return rechunk(self, chunks, min_mem=min_mem, allow_irregular=allow_irregular)\n", "        options = dict(min_mem=min_mem, allow_irregular=allow_irregular)\n        return rechunk(self, chunks, **options)\n"))
+mutant("M18x-threads-executor-keeps-option-outside-kwargs", ["C18", "C19"], "EXEC-EQ-1", (LOCAL, "class ThreadsExecutor(DagExecutor):\n    \"\"\"An execution engine that uses Python asyncio.\"\"\"\n\n    def __init__(self, **kwargs: Any) -> None:\n        super().__init__(**kwargs)\n", "class ThreadsExecutor(DagExecutor):\n    \"\"\"An execution engine that uses Python asyncio.\"\"\"\n\n    def __init__(self, max_workers=None, **kwargs: Any) -> None:\n        super().__init__(**kwargs)\n        self.max_workers = max_workers\n"))
+benign("B18x-threads-executor-named-option-into-kwargs", ["C18", "C19"], (LOCAL, "class ThreadsExecutor(DagExecutor):\n    \"\"\"An execution engine that uses Python asyncio.\"\"\"\n\n    def __init__(self, **kwargs: Any) -> None:\n        super().__init__(**kwargs)\n", "class ThreadsExecutor(DagExecutor):\n    \"\"\"An execution engine that uses Python asyncio.\"\"\"\n\n    def __init__(self, max_workers=None, **kwargs: Any) -> None:\n        if max_workers is not None:\n            kwargs[\"max_workers\"] = max_workers\n        super().__init__(**kwargs)\n"))
+_PPO = "    predecessor_primitive_ops = [\n        nodes[pre][\"primitive_op\"] if can_fuse else None\n        for pre, _, can_fuse in predecessor_ops_and_arrays(dag, name)\n    ]\n    return can_fuse_multiple_primitive_ops("
+mutant("M04t-admission-list-filtered", ["C04", "C03", "C02"], "FUSE-TWINLIST-1", (OPT, _PPO, "    predecessor_primitive_ops = [\n        nodes[pre][\"primitive_op\"] if can_fuse and pre != name else None\n        for pre, _, can_fuse in predecessor_ops_and_arrays(dag, name)\n    ]\n    return can_fuse_multiple_primitive_ops("))
+mutant("M04u-admission-list-drops-unfusable", ["C04", "C03", "C02"], "FUSE-TWINLIST-1", (OPT, _PPO, "    predecessor_primitive_ops = [\n        nodes[pre][\"primitive_op\"]\n        for pre, _, can_fuse in predecessor_ops_and_arrays(dag, name)\n        if can_fuse\n    ]\n    return can_fuse_multiple_primitive_ops("))
